@@ -1,31 +1,34 @@
 """C10 - gRPC definitions are well formed and messages round-trip payloads.
-(M) GRPCTransport.tla model-checked (request, response and well-formedness families) + one vacuity run per
-named deviation; (G) every (method shape, value) TLC emits is packed into goa designs, generated with the
-protoc stand-in (fakeprotoc: own proto3 parser + protodesc.NewFile as descriptor oracle), compiled and run in
-process (generated client -> stand-in transport -> generated server -> recording stub) and judged against the
-oracle sets the model computed; (J) the parsed field tables, rpc declarations and recorded exchanges are
-validated as traces by TLC (Trace_GRPCTransport)."""
-import json, os, collections
+(M) GRPCTransport.tla model-checked (request, response and well-formedness families; the Gen configurations
+check the invariants while emitting) + one vacuity run per named deviation; (G) every (method shape, value)
+TLC emits is packed into goa designs, generated with the protoc stand-in (fakeprotoc: own proto3 parser +
+protodesc.NewFile as descriptor oracle), compiled and run in process (generated client -> stand-in transport
+-> generated server -> recording stub) and judged against the oracle sets the model computed; (J) the parsed
+field tables, rpc declarations and recorded exchanges - of the enumerated cases and of randomly concretised
+ones - are validated as traces by TLC (Trace_GRPCTransport)."""
+import json, os, random
 from vlib import core, httpgen as hg, grpc_gen as gg, grpc_check as gc
 
+FOCUS = {"eval": ["accepted"], "wf": ["accepted", "table", "rpcs", "descok"],
+         "run": ["accepted", "descok", "invoked", "delivered", "cerr", "returned"]}
 
-FOCUS = {"eval": ["accepted"], "wf": ["accepted", "table", "descok"], "run": ["accepted", "descok", "invoked", "delivered", "cerr", "returned"]}
+
+def under_test(v, fam):
+    return (v["ra"], v["rv"]) if fam == "res" else (v["pa"], v["pv"])
 
 
 def judge(ctx, fam, cases, ex, nontrivial, stats):
+    """Oracle judgement (what the design promises) of every case; mismatches are named after the recorded
+    deviation that reproduces them exactly, else after the failing case."""
     pending = []
     for c in cases:
         v = c["v"]
         al = v["allow"]
         ctx.cov["evaluations"] += 1
-        a = v["pa"] if fam != "res" else v["ra"]
-        val = v["pv"] if fam != "res" else v["rv"]
+        a, val = under_test(v, fam)
         if fam == "wf" or a["loc"] != "message" or a["nest"] != "direct" or a["mode"] != "required" or a["rule"] != "none":
-            nontrivial.add(core.canon([fam, gg.shape_of(v), v["pv"], v["rv"]]))
+            nontrivial.add(core.canon([fam, gg.shape_of(v), v["pv"], v["rv"], c.get("sent"), c.get("rsent")]))
         problems = []
-        if c["unusable"] and c["accepted"] and c["gen"] == "ok":
-            stats["unusable"] += 1
-            continue
         if c["accepted"] != al["accept"]:
             if c["accepted"]:
                 problems.append(("eval/accepted-unnumbered-design", "design with tagmode %s accepted" % v["tagmode"]))
@@ -34,54 +37,194 @@ def judge(ctx, fam, cases, ex, nontrivial, stats):
         if c["accepted"] and c["gen"] != "ok" and c["table"] is None:
             # the generator itself failed before the protocol buffer compiler was reached: C01's business
             stats["generator_failed"][gc.attr_tag(a)] = "%s: %s" % (c["gen"], (c["genDetail"] or "").split("\n")[0][:200])
-            continue
-        if c["accepted"]:
+        elif c["accepted"]:
             problems += gc.table_problems(c)
             if c["uncompilable"]:
                 stats["uncompilable"][gc.attr_tag(a)] = c["uncompilable"]
             elif c["obs"] is not None:
                 stats["ran"] += 1
+                stats["ran_by_loc"][a["loc"]] = stats["ran_by_loc"].get(a["loc"], 0) + 1
                 problems += gc.run_problems(c, fam)
+            elif fam != "wf" and c["descriptorOK"]:
+                stats["unusable"] += 1
         if problems:
             pending.append((c, problems))
         elif ctx.cov["evaluations"] % 2500 == 1:
-            ctx.sample({"fam": fam, "shape": gg.shape_of(v), "pv": v["pv"], "rv": v["rv"], "table": c["table"], "observed": {k: (c["obs"] or {}).get(k) for k in ("where", "delivered", "invoked", "errname", "rwhere", "returned", "cerr")}})
+            ctx.sample({"fam": fam, "shape": gg.shape_of(v), "pv": v["pv"], "rv": v["rv"], "table": c["table"],
+                        "observed": {k: (c["obs"] or {}).get(k) for k in ("where", "delivered", "invoked", "errname", "rwhere", "returned", "cerr")}})
     ex.prepare([c["v"] for c, _ in pending])
     for c, problems in pending:
         v = c["v"]
-        a = v["pa"] if fam != "res" else v["ra"]
-        val = v["pv"] if fam != "res" else v["rv"]
+        a, val = under_test(v, fam)
         for what, detail in problems:
             dev = ex.explain(c, focus=FOCUS["eval" if what.startswith("eval/") else ("wf" if what.startswith("wf/") else "run")])
             key = dev or "C10/%s/%s/%s/%s" % (fam, gc.attr_tag(a), gc.val_tag(val).rsplit(":", 2)[0], what)
-            ctx.violation(key, ("[explained by deviation %s] " % dev if dev else "") + "%s attribute %s value %s (tagmode %s, stream %s): %s %s" % (
-                fam, gc.attr_tag(a), gc.val_tag(val), v["tagmode"], v["stream"], what, detail), gc.short_case(c))
+            ctx.violation(key, ("[explained by deviation %s] " % dev if dev else "") + "%s attribute %s value %s (tagmode %s, metadata companion %s, stream %s): %s %s" % (
+                fam, gc.attr_tag(a), gc.val_tag(val), v["tagmode"], v["withmd"], v["stream"], what, detail), gc.short_case(c))
+
+
+def known_deviations(ctx):
+    out = set()
+    for k in ctx.known:
+        for d in k.split("+"):
+            if d in gc.DEVIATIONS:
+                out.add(d)
+    return sorted(out)
+
+
+def validate_traces(ctx, fam, cases, ex, label, selftest=False):
+    """(J) the cases as one batch trace. Each case declares the deviations under which the mechanism of the model
+    does exactly what was recorded ([] for almost all); the trace specification only lets recorded findings be declared."""
+    need = []
+    for c in cases:
+        if gc.trace_events(c, []) is None:
+            continue
+        want = gc.obs_sig(c)
+        base = gc.mech_sig(c["v"])
+        if any(base.get(k) != want.get(k) for k in set(base) | set(want)):
+            need.append(c)
+    ex.prepare([c["v"] for c in need])
+    needed = {c["id"] for c in need}
+    lines, owner = [], []
+    for c in cases:
+        devs = []
+        if c["id"] in needed:
+            d = ex.explain(c)
+            devs = d.split("+") if d else ["unexplained"]
+        evs = gc.trace_events(c, devs)
+        if evs is None:
+            continue
+        for e in evs:
+            lines.append(json.dumps(e, sort_keys=True))
+            owner.append(c)
+    if not lines:
+        return 0
+    d = ctx.subdir("trace-" + label)
+    path = os.path.join(d, "trace.ndjson")
+    open(path, "w").write("\n".join(lines) + "\n")
+    known = known_deviations(ctx)
+    consts = {"Family": '"%s"' % fam, "Deviations": "{" + ", ".join('"%s"' % k for k in known) + "}"}
+    ok, hwm, r = ctx.trace_validate("trace/Trace_GRPCTransport", "trace/Trace_GRPCTransport.cfg", path, consts=consts, label="trace " + label, timeout=1500)
+    ntr = sum(1 for ln in lines if '"ev": "reset"' in ln)
+    ctx.log("TRACE %-20s %6d events %5d cases  accepted=%s hwm=%s  %.1fs" % (label, len(lines), ntr, ok, hwm, r.wall))
+    if not ok:
+        if r.violated:
+            raise core.Infra("trace specification violated its own invariant %s on %s (the model contradicts itself)" % (r.violated, label))
+        if hwm is None or hwm > len(lines):
+            raise core.Infra("trace validation of %s failed without a high-water mark: %s" % (label, (r.error or r.stdout[-800:])))
+        c = owner[hwm - 1]
+        a, val = under_test(c["v"], fam)
+        ev = json.loads(lines[hwm - 1])
+        what = "declares-unrecorded-deviation:" + "+".join(ev["devs"]) if ev["ev"] == "reset" else ev["ev"]
+        ctx.violation("C10/trace/%s/%s/%s/%s" % (fam, gc.attr_tag(a), gc.val_tag(val).rsplit(":", 2)[0], what),
+                      "trace rejected at line %d of %s (%s): the recorded event is not a step of GRPCTransport.tla: %s" % (hwm, label, c["id"], lines[hwm - 1][:300]),
+                      dict(gc.short_case(c), trace_line=hwm, event=ev))
+    else:
+        ctx.cov["traces_validated_against_impl"] += ntr
+    if selftest and ok:
+        selftest_trace(ctx, fam, lines, consts, label)
+    return ntr
+
+
+def selftest_trace(ctx, fam, lines, consts, label):
+    """Binding demonstration: one corrupted field in the middle of an accepted trace must be rejected at exactly that line."""
+    rng = random.Random(ctx.seed)
+    cands = [i for i, ln in enumerate(lines) if '"ev": "proto_field"' in ln or '"ev": "server_decode"' in ln or '"ev": "client_decode"' in ln]
+    if not cands:
+        return
+    for pick in (cands[len(cands) // 2], rng.choice(cands)):
+        e = json.loads(lines[pick])
+        if e["ev"] == "proto_field":
+            e["number"] = e["number"] + 1
+        elif e["ev"] == "server_decode":
+            e["kind"], e["errname"] = ("error", "invalid_range") if e["kind"] == "payload" else ("payload", "x")
+            e["class"] = "sent"
+        else:
+            e["class"] = "other" if e.get("class") != "other" else "sent"
+            if e["kind"] != "result":
+                e["kind"] = "result"
+        bad = list(lines)
+        bad[pick] = json.dumps(e, sort_keys=True)
+        d = ctx.subdir("trace-selftest")
+        path = os.path.join(d, "trace.ndjson")
+        open(path, "w").write("\n".join(bad) + "\n")
+        ok, hwm, r = ctx.trace_validate("trace/Trace_GRPCTransport", "trace/Trace_GRPCTransport.cfg", path, consts=consts, label="selftest " + label)
+        ctx.cov.setdefault("trace_selftests", []).append({"family": fam, "corrupted_line": pick + 1, "event": e["ev"], "rejected": not ok, "hwm": hwm})
+        if ok or hwm != pick + 1:
+            raise core.Infra("self-test failed: corrupted %s event at line %d of %s was %s (hwm %s)" % (e["ev"], pick + 1, label, "accepted" if ok else "rejected elsewhere", hwm))
+    ctx.log("self-test: corrupted trace lines rejected at exactly the corrupted line (%s)" % label)
 
 
 def run(ctx):
     quick = ctx.quick()
-    ctx.cov["rule"] = ("cases = (method shape, payload value, result value) triples enumerated by TLC from GRPCTransport.tla; non-trivial = well-formedness "
-                       "family, or the attribute under test is not a plain required unvalidated message field; distinct = canonical JSON of (family, shape, values)")
+    ctx.cov["rule"] = ("cases = (method shape, payload value, result value) triples enumerated by TLC from GRPCTransport.tla (plus randomly concretised members of "
+                       "the same classes); non-trivial = well-formedness family, or the attribute under test is not a plain required unvalidated message field; "
+                       "distinct = canonical JSON of (family, shape, abstract values, concrete data)")
+    ctx.assumptions += ["the .pb.go files are fakeprotoc stand-ins with protoc-gen-go naming: no protobuf wire encoding takes part (out of scope, not goa's code)",
+                        "protodesc.NewFile on the descriptor built by fakeprotoc's parser stands for protoc's acceptance of the file",
+                        "stream Send/Recv conversions are not executed (rpc declarations of the four streaming kinds are checked)"]
     nontrivial = set()
-    stats = {"unusable": 0, "ran": 0, "uncompilable": {}, "generator_failed": {}}
-    frac = float(os.environ.get("VERIF_FRAC") or (0.12 if quick else 1.0))
+    stats = {"unusable": 0, "ran": 0, "ran_by_loc": {}, "uncompilable": {}, "generator_failed": {}}
+    frac = float(os.environ.get("VERIF_FRAC") or (0.1 if quick else 1.0))
     fams = (os.environ.get("VERIF_FAMS") or "wf,req,res").split(",")
+    selftest = ctx.selftest or not quick
+    # (M) vacuity: with each named deviation the model violates the property
+    for d in gc.DEVIATIONS:
+        ctx.mc_expect_violation("mc/MC_GRPCTransport", consts={"Deviations": '{"%s"}' % d, "Family": '"%s"' % gc.DEV_FAMILY[d]}, label="MC dev " + d)
     for fam in fams:
+        # (M)+(G): one TLC run checks the invariants over the whole family and emits the cases
         vectors = gc.gen_vectors(ctx, fam)
         if fam != "wf":
             vectors = gc.sample_shapes(vectors, frac, ctx.seed)
         cases, pl = gc.run_family(ctx, fam, vectors)
-        for i, f in sorted(pl.failed.items()):
-            ctx.notes.append("%s design d%d not usable: %s" % (fam, i, str(f)[:300]))
+        for i, f in sorted(pl.failed.items())[:20]:
+            if f[0] not in ("eval",):
+                ctx.notes.append("%s design d%d not usable: %s" % (fam, i, str(f)[:200]))
         judge(ctx, fam, cases, gc.Explainer(ctx, fam), nontrivial, stats)
+        # (J) trace validation of what was recorded
+        tr = cases if len(cases) <= 2500 else random.Random(ctx.seed).sample(cases, 2500)
+        validate_traces(ctx, fam, tr, gc.Explainer(ctx, fam), fam, selftest=selftest and fam in ("wf", "req"))
         ctx.cov["designs_" + fam] = len(pl.designs)
         ctx.cov["designs_failed_" + fam] = len(pl.failed)
+        # (J) random mode: other members of the value classes, judged by the oracle and validated as a trace
+        if fam != "wf":
+            rng = random.Random(ctx.seed * 7919 + len(fam))
+            n = 400 if quick else 4000
+            pool = [v for v in vectors if not hg.is_absent(under_test(v, fam)[1])]
+            rv = rng.sample(pool, min(n, len(pool)))
+            rcases, rpl = gc.run_family(ctx, fam, rv, rng=rng, label=fam + "-random")
+            for c in rcases:
+                c["id"] = "r" + c["id"]
+            judge(ctx, fam, rcases, gc.Explainer(ctx, fam), nontrivial, stats)
+            validate_traces(ctx, fam, rcases, gc.Explainer(ctx, fam), fam + "-random")
     ctx.cov["distinct_nontrivial"] = len(nontrivial)
     ctx.cov["cases_run_in_process"] = stats["ran"]
+    ctx.cov["cases_run_by_location"] = stats["ran_by_loc"]
+    ctx.cov["cases_accepted_but_not_runnable"] = stats["unusable"]
     ctx.cov["c01_class_uncompilable_shapes"] = stats["uncompilable"]
     ctx.cov["c01_class_generator_failures"] = stats["generator_failed"]
+    if stats["uncompilable"] or stats["generator_failed"]:
+        ctx.notes.append("C01-class: %d attribute shapes generate code that does not compile and %d make the generator panic; their methods were set aside "
+                         "(see c01_class_* in the coverage)" % (len(stats["uncompilable"]), len(stats["generator_failed"])))
 
 
 def replay(ctx, rp):
-    print(json.dumps(rp["case"].get("vector"), indent=1)[:3000])
-    return 0
+    """Re-run the single recorded case on the repo under test and print verdict lines."""
+    case = rp["case"]
+    v = case["vector"]
+    fam = v["fam"]
+    cases, pl = gc.run_family(ctx, fam, [v], label="replay")
+    c = cases[0]
+    probs = []
+    if c["accepted"] != v["allow"]["accept"]:
+        probs.append(("eval", "accepted=%s" % c["accepted"]))
+    if c["accepted"]:
+        probs += gc.table_problems(c)
+        if c["obs"] is not None:
+            probs += gc.run_problems(c, fam)
+    print(json.dumps(gc.short_case(c), indent=1, default=str)[:6000])
+    for what, detail in probs:
+        print("REPRODUCED: %s %s" % (what, detail))
+    if not probs:
+        print("not reproduced on %s" % ctx.repo)
+    return 1 if probs else 0
